@@ -96,7 +96,13 @@ impl Compile for NumberLoop {
 
         result.append(&mut val_start);
 
-        result.push(instruction!(store_fast loop_identity));
+        if self.name_is_collision {
+            // the counter *is* an existing variable of this function: assign to it where it
+            // lives, instead of shadowing it in the innermost block frame.
+            result.push(instruction!(store loop_identity));
+        } else {
+            result.push(instruction!(store_fast loop_identity));
+        }
 
         result.append(&mut val_end);
 
